@@ -1,9 +1,9 @@
-/* C11 — a slow, failing or hostile peer harms only itself.
+/* C11 - a slow, failing or hostile peer harms only itself.
  * A fixed history of healthy traffic between H1 and H2 (changes, adds, removes, routed set/call with replies, fetch, get)
- * runs while a third peer X — which subscribed FIRST and therefore sits in front of the others in every subscriber
- * table — has one fault out of a menu, injected before every position of the history.  The streams of H1 and H2 are
+ * runs while a third peer X - which subscribed FIRST and therefore sits in front of the others in every subscriber
+ * table - has one fault out of a menu, injected before every position of the history.  The streams of H1 and H2 are
  * compared with the twin execution in which X stays healthy.  The only tolerated difference: a success response may
- * be replaced by an error response with the same id ("at worst an error that reports the failed delivery") — the
+ * be replaced by an error response with the same id ("at worst an error that reports the failed delivery") - the
  * effect must be there, which shows in the unchanged notifications and get results.
  * section 1: a fourth party's connection attempt fails in accept / fcntl / setsockopt / getsockname at every position. */
 #include <errno.h>
@@ -444,6 +444,6 @@ const struct driver drv_c11 = {
     .name = "c11",
     .property = "C11",
     .run = run,
-    .rule = "section 0: a 15-step history of healthy traffic between H1 (raw) and H2 (websocket) — change, add, remove, re-add, routed set/call with owner replies, a second fetch, get, requests routed to X — x 7 faults of the peer X that subscribed first (stops reading, one writev fails, reset seen by writev / epoll / read, invalid JSON, oversize length) x every position of the history x {X only subscribes, X also owns elements, X also has a routed request in flight to H1 that H1 answers in the middle of the history}; deviation budget 1: a second event later on (window opens again / X is reset); section 1: a fourth party's connection attempt on each of the 3 listeners with accept failing (ECONNABORTED, EMFILE, EINTR, ENFILE, ENOBUFS, ENOMEM, EPROTO) or fcntl / setsockopt / getsockname failing, at every position; oracle: H1's, H2's and a fresh peer's decoded streams equal the healthy twin's line by line, except that a response may be replaced by an error response with the same id; notifications about X's own elements are ignored; nobody but X is dropped; the listener still accepts; resources return to baseline",
+    .rule = "section 0: a 15-step history of healthy traffic between H1 (raw) and H2 (websocket) - change, add, remove, re-add, routed set/call with owner replies, a second fetch, get, requests routed to X - x 7 faults of the peer X that subscribed first (stops reading, one writev fails, reset seen by writev / epoll / read, invalid JSON, oversize length) x every position of the history x {X only subscribes, X also owns elements, X also has a routed request in flight to H1 that H1 answers in the middle of the history}; deviation budget 1: a second event later on (window opens again / X is reset); section 1: a fourth party's connection attempt on each of the 3 listeners with accept failing (ECONNABORTED, EMFILE, EINTR, ENFILE, ENOBUFS, ENOMEM, EPROTO) or fcntl / setsockopt / getsockname failing, at every position; oracle: H1's, H2's and a fresh peer's decoded streams equal the healthy twin's line by line, except that a response may be replaced by an error response with the same id; notifications about X's own elements are ignored; nobody but X is dropped; the listener still accepts; resources return to baseline",
     .assumptions = "param big = size of the values (with the 5120-byte write buffer of the default build the buffer of a stalled peer only fills with large values; the tiny build has a 96-byte buffer)|an error response instead of a success response is tolerated for every request of a healthy peer as long as all other output (notifications, get results) is identical, i.e. the request took effect",
 };
